@@ -1,21 +1,519 @@
 /-
   C02 — the SKR contains exactly what the KSR and the signing schema dictate.
+
+  Every theorem is for EVERY token oracle `tok`, every starting state `s`, every hash function and
+  software verifier (`ext`): the token may answer anything, at any operation.
+
+  Layout
+    §1  key-set algebra of `KeysToSign` (`ktsAdd` / `ktsUpdate` and their folds)
+    §2  `SlotKeys`: the key set of one slot, specified from the property text; `signBundle_keys_spec`
+    §3  signatures: exactly one per KSK listed under `sign`
+    §4  algorithm-set agreement, refusal on mismatch
+    §5  header echo, slot numbering, KSK policy (`createSkr_header`)
+    §6  the form of a revoked key
+    §7  non-vacuity examples
 -/
 import Kskm.Signer
 import KskmProofs.Lemmas.TokM
+import KskmProofs.Lemmas.SignerKeys
+import KskmProofs.Lemmas.SignerInv
+import KskmProofs.C14
 namespace Kskm.C02
+
+/-! ## §1 Key-set algebra -/
 
 /-- every key entering the signed set carries the configured TTL afterwards, if all did before -/
 theorem ktsAdd_ttl (ttl : Int) (keys : List Key) (k : Key) (h : ∀ x ∈ keys, x.ttl = ttl) :
-    ∀ x ∈ ktsAdd ttl keys k, x.ttl = ttl := by
-  intro x hx
-  unfold ktsAdd at hx
-  split at hx
-  · exact h x hx
-  · rcases List.mem_append.mp hx with h1 | h1
-    · exact h x h1
-    · simp only [List.mem_singleton] at h1
-      subst h1
-      split <;> simp_all
+    ∀ x ∈ ktsAdd ttl keys k, x.ttl = ttl :=
+  Kskm.ktsAdd_ttl ttl keys k h
+
+/-- **`add`.** The set after `add k` is the old set, plus — only when no record had `k`'s public key
+    text — `k` with the TTL replaced (`{k with ttl := ttl} = k` when the TTL was already right). -/
+theorem mem_ktsAdd (ttl : Int) (keys : List Key) (k x : Key) :
+    x ∈ ktsAdd ttl keys k ↔
+      x ∈ keys ∨ ((∀ y ∈ keys, y.publicKey ≠ k.publicKey) ∧ x = { k with ttl := ttl }) :=
+  Kskm.mem_ktsAdd ttl keys k x
+
+/-- `add` never creates two records with one public key text -/
+theorem ktsAdd_unique (ttl : Int) (keys : List Key) (k : Key)
+    (h : keys.Pairwise (fun a b => a.publicKey ≠ b.publicKey)) :
+    (ktsAdd ttl keys k).Pairwise (fun a b => a.publicKey ≠ b.publicKey) :=
+  Kskm.ktsAdd_unique ttl keys k h
+
+/-- **`update`.** On a set without repeated public keys, `update k` REPLACES: every record with
+    another public key stays, the record with `k`'s public key (if any) goes, `k` (TTL set) enters. -/
+theorem mem_ktsUpdate (ttl : Int) (keys : List Key) (k x : Key)
+    (hu : keys.Pairwise (fun a b => a.publicKey ≠ b.publicKey)) :
+    x ∈ ktsUpdate ttl keys k ↔
+      (x ∈ keys ∧ x.publicKey ≠ k.publicKey) ∨ x = { k with ttl := ttl } :=
+  Kskm.mem_ktsUpdate ttl keys k x hu
+
+theorem ktsUpdate_unique (ttl : Int) (keys : List Key) (k : Key)
+    (h : keys.Pairwise (fun a b => a.publicKey ≠ b.publicKey)) :
+    (ktsUpdate ttl keys k).Pairwise (fun a b => a.publicKey ≠ b.publicKey) :=
+  Kskm.ktsUpdate_unique ttl keys k h
+
+theorem ktsUpdate_ttl (ttl : Int) (keys : List Key) (k : Key) (h : ∀ x ∈ keys, x.ttl = ttl) :
+    ∀ x ∈ ktsUpdate ttl keys k, x.ttl = ttl :=
+  Kskm.ktsUpdate_ttl ttl keys k h
+
+/-- first record of `l` with public key text `p` -/
+def firstWithPk (l : List Key) (p : String) : Option Key := l.find? (fun k => k.publicKey = p)
+/-- last record of `l` with public key text `p` -/
+def lastWithPk (l : List Key) (p : String) : Option Key := l.reverse.find? (fun k => k.publicKey = p)
+
+/-- **fold of `add`** over any list, any starting set: for each public key text, what was there
+    wins, otherwise the FIRST record of the list with that text enters (TTL set). -/
+theorem foldl_ktsAdd_pick (ttl : Int) (l acc : List Key) (p : String) :
+    firstWithPk (l.foldl (fun acc k => ktsAdd ttl acc k) acc) p
+      = (firstWithPk acc p).or ((firstWithPk l p).map fun k => { k with ttl := ttl }) :=
+  lookupPk_foldl_ktsAdd ttl l acc p
+
+/-- **fold of `update`** over any list: the LAST record of the list with that text wins (TTL set),
+    otherwise what was there stays. -/
+theorem foldl_ktsUpdate_pick (ttl : Int) (l acc : List Key) (p : String)
+    (hu : acc.Pairwise (fun a b => a.publicKey ≠ b.publicKey)) :
+    firstWithPk (l.foldl (fun acc k => ktsUpdate ttl acc k) acc) p
+      = ((lastWithPk l p).map fun k => { k with ttl := ttl }).or (firstWithPk acc p) :=
+  lookupPk_foldl_ktsUpdate ttl l acc p hu
+
+/-! ## §2 The key set of one slot
+
+`P` are the DNSKEY records of the KSKs fetched for `publish`, `R` those fetched for `revoke` in their
+revoked form, `S` those fetched for `sign`, `Z` the keys of the request bundle.
+
+Property text: the key set is `{z with ttl | z ∈ Z} ∪ {k ∈ P ∪ S | no r ∈ R has k's public key} ∪ R`,
+everything with the configured TTL, deduplicated by public key text.  Deduplication needs a
+precedence, and the precedence is part of the specification: for each public key text `p`
+
+    the last record of `R` with text `p`,  else the first of `P`,  else the first of `S`,
+    else the first of `Z`
+
+(`slotPick`).  In particular — the caveat of DESIGN §4/C02, not idealised away — a request key whose
+public key text equals that of a KSK record is DROPPED in favour of the KSK record
+(`request_key_with_ksk_pk_dropped`). -/
+
+/-- the record chosen for public key text `p` -/
+def slotPick (P R S Z : List Key) (p : String) : Option Key :=
+  (lastWithPk R p).or ((firstWithPk P p).or ((firstWithPk S p).or (firstWithPk Z p)))
+
+/-- `out` is the key set the property prescribes for a slot (up to order) -/
+structure SlotKeys (ttl : Int) (P R S Z out : List Key) : Prop where
+  /-- membership: exactly the chosen record of every public key text, TTL set -/
+  mem : ∀ x, x ∈ out ↔ ∃ p k, slotPick P R S Z p = some k ∧ x = { k with ttl := ttl }
+  /-- every key carries the configured TTL -/
+  ttl : ∀ x ∈ out, x.ttl = ttl
+  /-- no two entries share a public key text -/
+  unique : out.Pairwise (fun a b => a.publicKey ≠ b.publicKey)
+
+theorem slotPick_pk {P R S Z : List Key} {p : String} {k : Key} (h : slotPick P R S Z p = some k) :
+    k.publicKey = p := by
+  simp only [slotPick, Option.or_eq_some_iff] at h
+  rcases h with h | ⟨_, h | ⟨_, h | ⟨_, h⟩⟩⟩ <;> exact lookupPk_some_pk h
+
+theorem lookupPk_slotFold (ttl : Int) (P R S Z : List Key) (p : String) :
+    lookupPk (slotFold ttl P R S Z) p = (slotPick P R S Z p).map fun k => { k with ttl := ttl } := by
+  have hu : UniquePk (P.foldl (fun acc k => ktsAdd ttl acc k) []) :=
+    foldl_ktsAdd_unique ttl P [] List.Pairwise.nil
+  unfold slotFold slotPick lastWithPk firstWithPk
+  rw [lookupPk_foldl_ktsAdd, lookupPk_foldl_ktsAdd, lookupPk_foldl_ktsUpdate _ _ _ _ hu,
+    lookupPk_foldl_ktsAdd]
+  simp only [lookupPk_nil, Option.none_or, Option.map_or, Option.or_assoc]
+  rfl
+
+/-- the fold that `sign_bundles` runs meets the specification, for all four lists -/
+theorem slotFold_spec (ttl : Int) (P R S Z : List Key) : SlotKeys ttl P R S Z (slotFold ttl P R S Z) := by
+  have hu1 : UniquePk (P.foldl (fun acc k => ktsAdd ttl acc k) []) :=
+    foldl_ktsAdd_unique ttl P [] List.Pairwise.nil
+  have ht1 : ∀ x ∈ P.foldl (fun acc k => ktsAdd ttl acc k) [], x.ttl = ttl :=
+    foldl_ktsAdd_ttl ttl P [] (by simp)
+  have hu : UniquePk (slotFold ttl P R S Z) :=
+    foldl_ktsAdd_unique ttl Z _ (foldl_ktsAdd_unique ttl S _ (foldl_ktsUpdate_unique ttl R _ hu1))
+  have ht : ∀ x ∈ slotFold ttl P R S Z, x.ttl = ttl :=
+    foldl_ktsAdd_ttl ttl Z _ (foldl_ktsAdd_ttl ttl S _ (foldl_ktsUpdate_ttl ttl R _ ht1))
+  refine ⟨?_, ht, hu⟩
+  intro x
+  rw [mem_iff_lookupPk hu, lookupPk_slotFold]
+  constructor
+  · intro h
+    cases hp : slotPick P R S Z x.publicKey with
+    | none => simp [hp] at h
+    | some k =>
+      simp only [hp, Option.map_some, Option.some.injEq] at h
+      exact ⟨x.publicKey, k, hp, h.symm⟩
+  · rintro ⟨p, k, hp, rfl⟩
+    have : k.publicKey = p := slotPick_pk hp
+    simp only [this, hp, Option.map_some]
+
+/-! ### consequences of `SlotKeys` in the vocabulary of the property text -/
+
+/-- nothing else slipped in: every published record is a revoked record, or a publish/sign record
+    whose public key is not revoked, or a request key whose public key is no KSK's — with the TTL set -/
+theorem SlotKeys.sound {ttl : Int} {P R S Z out : List Key} (h : SlotKeys ttl P R S Z out) (x : Key)
+    (hx : x ∈ out) :
+    (∃ r ∈ R, x = { r with ttl := ttl }) ∨
+    (∃ k ∈ P ++ S, x = { k with ttl := ttl } ∧ ∀ r ∈ R, r.publicKey ≠ k.publicKey) ∨
+    (∃ z ∈ Z, x = { z with ttl := ttl } ∧ ∀ k ∈ P ++ R ++ S, k.publicKey ≠ z.publicKey) := by
+  obtain ⟨p, k, hp, rfl⟩ := (h.mem x).mp hx
+  have hkp := slotPick_pk hp
+  simp only [slotPick, lastWithPk, firstWithPk, Option.or_eq_some_iff] at hp
+  have hR : ∀ {l : List Key}, l.reverse.find? (fun k => decide (k.publicKey = p)) = none →
+      ∀ r ∈ l, r.publicKey ≠ p := by
+    intro l hl r hr
+    exact (lookupPk_eq_none (l := l.reverse)).mp hl r (List.mem_reverse.mpr hr)
+  rcases hp with h1 | ⟨hr, h2 | ⟨hpn, h3 | ⟨hsn, h4⟩⟩⟩
+  · exact Or.inl ⟨k, List.mem_reverse.mp (lookupPk_some_mem h1), rfl⟩
+  · refine Or.inr (Or.inl ⟨k, List.mem_append_left _ (lookupPk_some_mem h2), rfl, ?_⟩)
+    intro r hr'; rw [hkp]; exact hR hr r hr'
+  · refine Or.inr (Or.inl ⟨k, List.mem_append_right _ (lookupPk_some_mem h3), rfl, ?_⟩)
+    intro r hr'; rw [hkp]; exact hR hr r hr'
+  · refine Or.inr (Or.inr ⟨k, lookupPk_some_mem h4, rfl, ?_⟩)
+    intro y hy
+    rw [hkp]
+    simp only [List.mem_append] at hy
+    rcases hy with (hy | hy) | hy
+    · exact lookupPk_eq_none.mp hpn y hy
+    · exact hR hr y hy
+    · exact lookupPk_eq_none.mp hsn y hy
+
+/-- nothing is missing: every public key text occurring in `P`, `R`, `S` or `Z` is represented -/
+theorem SlotKeys.complete {ttl : Int} {P R S Z out : List Key} (h : SlotKeys ttl P R S Z out) (k : Key)
+    (hk : k ∈ P ++ R ++ S ++ Z) : ∃ x ∈ out, x.publicKey = k.publicKey := by
+  have : ∃ k', slotPick P R S Z k.publicKey = some k' := by
+    simp only [List.mem_append] at hk
+    unfold slotPick lastWithPk firstWithPk
+    rcases hk with ((hk | hk) | hk) | hk
+    · obtain ⟨k', hk'⟩ := lookupPk_isSome_of_mem hk
+      unfold lookupPk at hk'
+      cases (List.find? (fun k_1 => decide (k_1.publicKey = k.publicKey)) R.reverse) <;> simp [hk']
+    · obtain ⟨k', hk'⟩ := lookupPk_isSome_of_mem (List.mem_reverse.mpr hk)
+      unfold lookupPk at hk'
+      simp [hk']
+    · obtain ⟨k', hk'⟩ := lookupPk_isSome_of_mem hk
+      unfold lookupPk at hk'
+      cases (List.find? (fun k_1 => decide (k_1.publicKey = k.publicKey)) R.reverse) <;>
+        cases (List.find? (fun k_1 => decide (k_1.publicKey = k.publicKey)) P) <;> simp [hk']
+    · obtain ⟨k', hk'⟩ := lookupPk_isSome_of_mem hk
+      unfold lookupPk at hk'
+      cases (List.find? (fun k_1 => decide (k_1.publicKey = k.publicKey)) R.reverse) <;>
+        cases (List.find? (fun k_1 => decide (k_1.publicKey = k.publicKey)) P) <;>
+        cases (List.find? (fun k_1 => decide (k_1.publicKey = k.publicKey)) S) <;> simp [hk']
+  obtain ⟨k', hk'⟩ := this
+  exact ⟨{ k' with ttl := ttl }, (h.mem _).mpr ⟨_, k', hk', rfl⟩, (slotPick_pk hk' : k'.publicKey = _)⟩
+
+/-- a revoked record is published as such (the last one of `R` per public key text): `revoke`
+    REPLACES whatever `publish` put there and is not displaced by `sign` or by a request key -/
+theorem SlotKeys.revoked_in {ttl : Int} {P R S Z out : List Key} (h : SlotKeys ttl P R S Z out) (r : Key)
+    (hr : r ∈ R) : ∃ x ∈ out, x.publicKey = r.publicKey ∧ ∃ r' ∈ R, x = { r' with ttl := ttl } := by
+  obtain ⟨r', hr'⟩ := lookupPk_isSome_of_mem (List.mem_reverse.mpr hr)
+  have hp : slotPick P R S Z r.publicKey = some r' := by
+    unfold slotPick lastWithPk
+    unfold lookupPk at hr'
+    simp [hr']
+  exact ⟨{ r' with ttl := ttl }, (h.mem _).mpr ⟨_, r', hp, rfl⟩, (slotPick_pk hp : r'.publicKey = _), r',
+    List.mem_reverse.mp (lookupPk_some_mem hr'), rfl⟩
+
+/-- **The dedupe caveat, explicitly.** A request key whose public key text equals that of a KSK
+    record (publish, revoke or sign) does not appear: the entry with that public key text is the
+    KSK record. -/
+theorem SlotKeys.request_key_with_ksk_pk_dropped {ttl : Int} {P R S Z out : List Key}
+    (h : SlotKeys ttl P R S Z out) (z k : Key) (hk : k ∈ P ++ R ++ S)
+    (hpk : k.publicKey = z.publicKey) :
+    ∀ x ∈ out, x.publicKey = z.publicKey → ∃ k' ∈ P ++ R ++ S, x = { k' with ttl := ttl } := by
+  intro x hx hxz
+  rcases h.sound x hx with ⟨r, hr, rfl⟩ | ⟨k', hk', rfl, _⟩ | ⟨z', _, rfl, hno⟩
+  · exact ⟨r, by simp [hr], rfl⟩
+  · refine ⟨k', ?_, rfl⟩
+    simp only [List.mem_append] at hk' ⊢
+    rcases hk' with h1 | h1
+    · exact Or.inl (Or.inl h1)
+    · exact Or.inr h1
+  · exact absurd (hpk.trans hxz.symm) (hno k hk)
+
+/-- no two records of `l` share a public key text unless they are the same record -/
+def PkFunctional (l : List Key) : Prop := ∀ a ∈ l, ∀ b ∈ l, a.publicKey = b.publicKey → a = b
+
+/-- **Exactly the set of the property text**, when a public key text names one record within the
+    revoked records, within the publish/sign records and within the request keys: -/
+theorem SlotKeys.exact {ttl : Int} {P R S Z out : List Key} (h : SlotKeys ttl P R S Z out)
+    (hR : PkFunctional R) (hPS : PkFunctional (P ++ S)) (hZ : PkFunctional Z) (x : Key) :
+    x ∈ out ↔
+      (∃ r ∈ R, x = { r with ttl := ttl }) ∨
+      (∃ k ∈ P ++ S, x = { k with ttl := ttl } ∧ ∀ r ∈ R, r.publicKey ≠ k.publicKey) ∨
+      (∃ z ∈ Z, x = { z with ttl := ttl } ∧ ∀ k ∈ P ++ R ++ S, k.publicKey ≠ z.publicKey) := by
+  constructor
+  · exact h.sound x
+  · have none_of : ∀ (l : List Key) (p : String), (∀ y ∈ l, y.publicKey ≠ p) →
+        l.find? (fun k => decide (k.publicKey = p)) = none := by
+      intro l p hl
+      exact lookupPk_eq_none.mpr hl
+    have some_of : ∀ (l : List Key), PkFunctional l → ∀ k ∈ l,
+        l.find? (fun y => decide (y.publicKey = k.publicKey)) = some k := by
+      intro l hl k hk
+      obtain ⟨k', hk'⟩ := lookupPk_isSome_of_mem hk
+      have := hl k' (lookupPk_some_mem hk') k hk (lookupPk_some_pk hk')
+      unfold lookupPk at hk'
+      rw [hk', this]
+    rintro (⟨r, hr, rfl⟩ | ⟨k, hk, rfl, hno⟩ | ⟨z, hz, rfl, hno⟩)
+    · obtain ⟨x, hx, hpk, r', hr', rfl⟩ := h.revoked_in r hr
+      have : r' = r := hR r' hr' r hr hpk
+      rw [← this]; exact hx
+    · refine (h.mem _).mpr ⟨k.publicKey, k, ?_, rfl⟩
+      unfold slotPick lastWithPk firstWithPk
+      rw [none_of R.reverse k.publicKey (fun y hy => hno y (List.mem_reverse.mp hy)), Option.none_or,
+        ← Option.or_assoc, ← List.find?_append, some_of (P ++ S) hPS k hk, Option.some_or]
+    · refine (h.mem _).mpr ⟨z.publicKey, z, ?_, rfl⟩
+      unfold slotPick lastWithPk firstWithPk
+      rw [none_of R.reverse z.publicKey
+          (fun y hy => hno y (by simp [List.mem_reverse.mp hy])),
+        none_of P z.publicKey (fun y hy => hno y (by simp [hy])),
+        none_of S z.publicKey (fun y hy => hno y (by simp [hy])), some_of Z hZ z hz]
+      rfl
+
+/-! ### what `_fetch_keys` returns: KSK records in the form the property states -/
+
+/-- `k` is the DNSKEY record of the KSK configured under `name`, as built from the public key text
+    `pk` the token attributes encode: flags 257, protocol 3, configured algorithm and TTL, label as
+    identifier, RFC 4034 App. B tag over its own RDATA. -/
+structure KskRecord (cfg : SignerConfig) (name : String) (pk : String) (k : Key) : Prop where
+  configured : ∃ ksk, cfg.kskKeys.lookup name = some ksk ∧ k.keyIdentifier = ksk.label ∧
+    k.algorithm = ksk.algorithm
+  flags : k.flags = 257
+  protocol : k.protocol = 3
+  ttl : k.ttl = cfg.kskPolicy.ttl
+  publicKey : k.publicKey = pk
+  tag : ∃ rd, keyToRdata k = .ok rd ∧ k.keyTag = (C14.rfc4034KeyTag rd : Nat)
+
+theorem kskRecord_of_fetched {cfg : SignerConfig} {name : String} {ck : CompositeKey}
+    (h : FetchedAs cfg name ck) :
+    ∃ pk, ck.p11.publicKey = some pk ∧ KskRecord cfg name pk ck.dns := by
+  obtain ⟨ksk, pk, hl, hpk, hk⟩ := h
+  obtain ⟨h1, h2, h3, h4, h5, h6, rd, h7, h8⟩ := publicKeyToDnssecKey_ok hk
+  exact ⟨pk, hpk, ⟨ksk, hl, h1, h5⟩, h3, h4, h2, h6, rd, h7, by rw [h8, C14.keyTag_eq_rfc4034]⟩
+
+/-- the fetched keys of one schema list: one per name, each a `KskRecord` of a listed name with the
+    public key text the token answered -/
+def FetchedFor (cfg : SignerConfig) (names : List String) (cks : List CompositeKey) : Prop :=
+  cks.length = names.length ∧
+  (∀ ck ∈ cks, ∃ name ∈ names, ∃ pk, ck.p11.publicKey = some pk ∧ KskRecord cfg name pk ck.dns) ∧
+  (∀ name ∈ names, ∃ ck ∈ cks, ∃ pk, ck.p11.publicKey = some pk ∧ KskRecord cfg name pk ck.dns)
+
+theorem fetchedFor_of_ok {ext : Externals} {mods : List P11Module} {cfg : SignerConfig} {bundle : Bundle}
+    {isPublic : Bool} {names : List String} {t : Token} {s s' : TokState} {cks : List CompositeKey}
+    (h : fetchKeys ext mods cfg bundle isPublic names t s = (.ok cks, s')) :
+    FetchedFor cfg names cks := by
+  obtain ⟨h1, h2, h3⟩ := fetchKeys_ok h
+  refine ⟨h3, ?_, ?_⟩
+  · intro ck hck
+    obtain ⟨n, hn, hf⟩ := h1 ck hck
+    exact ⟨n, hn, kskRecord_of_fetched hf⟩
+  · intro n hn
+    obtain ⟨ck, hck, hf⟩ := h2 n hn
+    exact ⟨ck, hck, kskRecord_of_fetched hf⟩
+
+/-- **C02, key set of a slot.** Whenever `signBundle` succeeds — any token, any state — there are
+    the schema action of the slot and the keys the three fetches returned such that the response key
+    set is `SlotKeys` of them and of the request keys (membership by precedence, all with the
+    configured TTL, no public key text twice), and id / inception / expiration are the request's. -/
+theorem signBundle_keys_spec (ext : Externals) (mods : List P11Module) (cfg : SignerConfig) (slot : Nat)
+    (bundle rb : Bundle) (tok : Token) (s s' : TokState)
+    (h : signBundle ext mods cfg slot bundle tok s = (.ok rb, s')) :
+    ∃ act pub rev signing revoked,
+      cfg.actions.lookup slot = some act ∧
+      FetchedFor cfg act.publish pub ∧ FetchedFor cfg act.revoke rev ∧ FetchedFor cfg act.sign signing ∧
+      rev.mapM (fun ck => ck.dns.asRevoked) = .ok revoked ∧
+      SlotKeys cfg.kskPolicy.ttl (pub.map (·.dns)) revoked (signing.map (·.dns)) bundle.keys rb.keys ∧
+      (∀ x ∈ rb.keys, x.ttl = cfg.kskPolicy.ttl) ∧
+      rb.keys.Pairwise (fun a b => a.publicKey ≠ b.publicKey) ∧
+      rb.id = bundle.id ∧ rb.inception = bundle.inception ∧ rb.expiration = bundle.expiration := by
+  obtain ⟨act, pub, rev, revoked, signing, s1, s2, s3, hact, hpub, hrev, hrevoked, hsign, hkeys, _, hfin⟩ :=
+    signBundle_ok h
+  obtain ⟨_, hrb, _⟩ := finishBundle_ok hfin
+  have hspec := slotFold_spec cfg.kskPolicy.ttl (pub.map (·.dns)) revoked (signing.map (·.dns)) bundle.keys
+  rw [← hkeys] at hspec
+  refine ⟨act, pub, rev, signing, revoked, hact, fetchedFor_of_ok hpub, fetchedFor_of_ok hrev,
+    fetchedFor_of_ok hsign, hrevoked, hspec, hspec.ttl, hspec.unique, ?_, ?_, ?_⟩ <;> rw [hrb]
+
+/-! ## §3 Signatures: exactly one per KSK listed under `sign` -/
+
+/-- **C02, signatures of a slot.** The identifiers of the response signatures are exactly the key
+    identifiers (= configured labels) of the keys fetched for `sign`, as a set, and pairwise
+    distinct: one signature per KSK even when a name is repeated under `sign`. -/
+theorem signBundle_signatures_spec (ext : Externals) (mods : List P11Module) (cfg : SignerConfig)
+    (slot : Nat) (bundle rb : Bundle) (tok : Token) (s s' : TokState)
+    (h : signBundle ext mods cfg slot bundle tok s = (.ok rb, s')) :
+    ∃ act signing, cfg.actions.lookup slot = some act ∧ FetchedFor cfg act.sign signing ∧
+      (∀ id, (∃ σ ∈ rb.signatures, σ.keyIdentifier = id) ↔ (∃ ck ∈ signing, ck.dns.keyIdentifier = id)) ∧
+      (∀ id, (∃ σ ∈ rb.signatures, σ.keyIdentifier = id) ↔
+        (∃ name ∈ act.sign, ∃ ksk, cfg.kskKeys.lookup name = some ksk ∧ ksk.label = id)) ∧
+      rb.signatures.Pairwise (fun a b => a.keyIdentifier ≠ b.keyIdentifier) := by
+  obtain ⟨act, pub, rev, revoked, signing, s1, s2, s3, hact, _, _, _, hsign, _, hsigs, _⟩ := signBundle_ok h
+  obtain ⟨new, e, h1, h2, h3, _⟩ := signAll_ok hsigs
+  simp only [List.nil_append] at e
+  subst e
+  have hff := fetchedFor_of_ok hsign
+  have hset : ∀ id, (∃ σ ∈ rb.signatures, σ.keyIdentifier = id) ↔ (∃ ck ∈ signing, ck.dns.keyIdentifier = id) := by
+    intro id
+    constructor
+    · rintro ⟨σ, hσ, rfl⟩
+      obtain ⟨sk, hsk, sa, sb, hrun⟩ := h1 σ hσ
+      exact ⟨sk, hsk, (signKeys_ok_id hrun).1.symm⟩
+    · rintro ⟨ck, hck, rfl⟩
+      exact h2 ck hck
+  refine ⟨act, signing, hact, hff, hset, ?_, h3 List.Pairwise.nil⟩
+  intro id
+  rw [hset id]
+  constructor
+  · rintro ⟨ck, hck, rfl⟩
+    obtain ⟨name, hn, pk, _, hrec⟩ := hff.2.1 ck hck
+    obtain ⟨ksk, hl, hid, _⟩ := hrec.configured
+    exact ⟨name, hn, ksk, hl, hid.symm⟩
+  · rintro ⟨name, hn, ksk, hl, rfl⟩
+    obtain ⟨ck, hck, pk, _, hrec⟩ := hff.2.2 name hn
+    obtain ⟨ksk', hl', hid, _⟩ := hrec.configured
+    rw [hl] at hl'
+    cases hl'
+    exact ⟨ck, hck, hid⟩
+
+/-! ## §4 Algorithm sets -/
+
+/-- **Refusal.** Once the fetches and the signing loop have answered (whatever the token answered),
+    if the set of algorithm numbers of the request keys differs from that of the signatures made,
+    the outcome is `CreateSignatureError` — no bundle is returned. -/
+theorem alg_mismatch_refused (ext : Externals) (mods : List P11Module) (cfg : SignerConfig) (slot : Nat)
+    (bundle : Bundle) (tok : Token) (s s1 s2 s3 s4 : TokState) (act : SchemaAction)
+    (pub rev signing : List CompositeKey) (revoked : List Key) (sigs : List Signature)
+    (hact : cfg.actions.lookup slot = some act)
+    (hpub : fetchKeys ext mods cfg bundle true act.publish tok s = (.ok pub, s1))
+    (hrev : fetchKeys ext mods cfg bundle true act.revoke tok s1 = (.ok rev, s2))
+    (hrevoked : rev.mapM (fun ck => ck.dns.asRevoked) = .ok revoked)
+    (hsign : fetchKeys ext mods cfg bundle false act.sign tok s2 = (.ok signing, s3))
+    (hsigs : signAll ext bundle
+      (slotFold cfg.kskPolicy.ttl (pub.map (·.dns)) revoked (signing.map (·.dns)) bundle.keys)
+      cfg.kskPolicy signing [] tok s3 = (.ok sigs, s4))
+    (hne : ¬ ∀ a, a ∈ bundle.keys.map (·.algorithm) ↔ a ∈ sigs.map (·.algorithm)) :
+    signBundle ext mods cfg slot bundle tok s = (.error (.error .createSignature), s4) := by
+  rw [signBundle_run hact hpub hrev hrevoked hsign hsigs]
+  have : sameSet (bundle.keys.map (·.algorithm)) (sigs.map (·.algorithm)) = false := by
+    rw [Bool.eq_false_iff]
+    intro hs
+    exact hne ((sameSet_iff _ _).mp hs)
+  simp [finishBundle, this, err]
+
+/-- **Agreement.** A returned bundle has the same set of algorithm numbers among the request keys and
+    among its signatures. -/
+theorem signBundle_ok_algs (ext : Externals) (mods : List P11Module) (cfg : SignerConfig) (slot : Nat)
+    (bundle rb : Bundle) (tok : Token) (s s' : TokState)
+    (h : signBundle ext mods cfg slot bundle tok s = (.ok rb, s')) :
+    ∀ a, a ∈ bundle.keys.map (·.algorithm) ↔ a ∈ rb.signatures.map (·.algorithm) := by
+  obtain ⟨act, pub, rev, revoked, signing, s1, s2, s3, _, _, _, _, _, _, _, hfin⟩ := signBundle_ok h
+  exact (sameSet_iff _ _).mp (finishBundle_ok hfin).1
+
+/-! ## §5 Header, slot numbering, KSK policy -/
+
+/-- **C02, response assembly.** For every request (any number of bundles): the header echoes the
+    request, no timestamp, as many bundles as requested, bundle `i` is the result of `signBundle` for
+    slot `i + 1` on request bundle `i` (so §2–§4 apply to it), the six KSK policy durations are the
+    configured ones, and the stated algorithm set is exactly the set of algorithm policies of all
+    published keys (each listed once). -/
+theorem createSkr_header (ext : Externals) (mods : List P11Module) (cfg : SignerConfig) (req : Request)
+    (resp : Response) (tok : Token) (s s' : TokState)
+    (h : createSkr ext mods cfg req tok s = (.ok resp, s')) :
+    resp.id = req.id ∧ resp.serial = req.serial ∧ resp.domain = req.domain ∧
+    resp.zskPolicy = req.zskPolicy ∧ resp.timestamp = none ∧
+    resp.bundles.length = req.bundles.length ∧
+    (∀ i b, req.bundles[i]? = some b → ∃ rb s1 s2, resp.bundles[i]? = some rb ∧
+      signBundle ext mods cfg (i + 1) b tok s1 = (.ok rb, s2)) ∧
+    resp.kskPolicy.publishSafety = cfg.kskPolicy.signaturePolicy.publishSafety ∧
+    resp.kskPolicy.retireSafety = cfg.kskPolicy.signaturePolicy.retireSafety ∧
+    resp.kskPolicy.maxSignatureValidity = cfg.kskPolicy.signaturePolicy.maxSignatureValidity ∧
+    resp.kskPolicy.minSignatureValidity = cfg.kskPolicy.signaturePolicy.minSignatureValidity ∧
+    resp.kskPolicy.maxValidityOverlap = cfg.kskPolicy.signaturePolicy.maxValidityOverlap ∧
+    resp.kskPolicy.minValidityOverlap = cfg.kskPolicy.signaturePolicy.minValidityOverlap ∧
+    (∀ a, a ∈ resp.kskPolicy.algorithms ↔
+      ∃ b ∈ resp.bundles, ∃ k ∈ b.keys, algorithmPolicyOfKey k = .ok a) ∧
+    resp.kskPolicy.algorithms.Nodup := by
+  unfold createSkr at h
+  obtain ⟨bundles, s1, hb, h⟩ := TokM.bind_ok _ _ _ _ _ _ h
+  obtain ⟨kp, hkp, h⟩ := (TokM.lift_bind_ok_iff _ _ _ _ _ _).mp h
+  simp only [TokM.pure_run, Prod.mk.injEq, Except.ok.injEq] at h
+  obtain ⟨rfl, rfl⟩ := h
+  unfold signBundles at hb
+  obtain ⟨hlen, hpos⟩ := signBundlesFrom_ok hb
+  obtain ⟨k1, k2, k3, k4, k5, k6, k7, k8, _⟩ := kskSignaturePolicy_ok hkp
+  refine ⟨rfl, rfl, rfl, rfl, rfl, hlen, ?_, k1, k2, k3, k4, k5, k6, k7, k8⟩
+  intro i b hib
+  obtain ⟨rb, sa, sb, h1, h2⟩ := hpos i b hib
+  exact ⟨rb, sa, sb, h1, by rw [Nat.add_comm]; exact h2⟩
+
+/-! ## §6 The form of a revoked key -/
+
+/-- **Revoked form.** A KSK record listed under `revoke` enters the set with flags
+    `setRevokeBit 257 = 385`, the RFC 4034 App. B tag recomputed over its own (new) RDATA, and label,
+    TTL, protocol, algorithm and public key text unchanged. -/
+theorem revoked_key_form (cfg : SignerConfig) (name pk : String) (k r : Key)
+    (hk : KskRecord cfg name pk k) (hr : k.asRevoked = .ok r) :
+    r.flags = 385 ∧ setRevokeBit 257 = 385 ∧
+    r.keyIdentifier = k.keyIdentifier ∧ r.ttl = cfg.kskPolicy.ttl ∧ r.protocol = 3 ∧
+    r.algorithm = k.algorithm ∧ r.publicKey = pk ∧
+    ∃ rd, keyToRdata r = .ok rd ∧ r.keyTag = (C14.rfc4034KeyTag rd : Nat) := by
+  obtain ⟨rd, h1, _, h3, h4, h5, h6, h7, h8, h9⟩ := C14.revoke_sets_only_bit_and_retags k r hr
+  refine ⟨?_, by decide, h3, by rw [h4, hk.ttl], by rw [h5, hk.protocol], h6, by rw [h7, hk.publicKey],
+    rd, h8, h9⟩
+  rw [h1, hk.flags]
+  decide
+
+/-- every record of the revoked list of a successful slot has that form, for a name listed under
+    `revoke`, and is published (last one per public key text) -/
+theorem signBundle_revoked_published (ext : Externals) (mods : List P11Module) (cfg : SignerConfig)
+    (slot : Nat) (bundle rb : Bundle) (tok : Token) (s s' : TokState)
+    (h : signBundle ext mods cfg slot bundle tok s = (.ok rb, s')) :
+    ∃ act, ∃ revoked : List Key, cfg.actions.lookup slot = some act ∧
+      (∀ r ∈ revoked, ∃ name ∈ act.revoke, ∃ pk k, KskRecord cfg name pk k ∧ k.asRevoked = .ok r) ∧
+      (∀ name ∈ act.revoke, ∃ r ∈ revoked, ∃ pk k, KskRecord cfg name pk k ∧ k.asRevoked = .ok r) ∧
+      (∀ r ∈ revoked, ∃ x ∈ rb.keys, x ∈ revoked ∧ x.publicKey = r.publicKey) := by
+  obtain ⟨act, pub, rev, signing, revoked, hact, _, hrev, _, hrevoked, hspec, _⟩ :=
+    signBundle_keys_spec ext mods cfg slot bundle rb tok s s' h
+  obtain ⟨hm, _, hall⟩ := mapM_ok_mem _ _ _ hrevoked
+  have hform : ∀ r ∈ revoked, ∃ name ∈ act.revoke, ∃ pk k, KskRecord cfg name pk k ∧ k.asRevoked = .ok r := by
+    intro r hr
+    obtain ⟨ck, hck, hrk⟩ := (hm r).mp hr
+    obtain ⟨name, hn, pk, _, hrec⟩ := hrev.2.1 ck hck
+    exact ⟨name, hn, pk, ck.dns, hrec, hrk⟩
+  refine ⟨act, revoked, hact, hform, ?_, ?_⟩
+  · intro name hn
+    obtain ⟨ck, hck, pk, _, hrec⟩ := hrev.2.2 name hn
+    obtain ⟨r, hrk⟩ := hall ck hck
+    exact ⟨r, (hm r).mpr ⟨ck, hck, hrk⟩, pk, ck.dns, hrec, hrk⟩
+  · intro r hr
+    obtain ⟨x, hx, hpk, r', hr', rfl⟩ := hspec.revoked_in r hr
+    obtain ⟨name, _, pk, k, hrec, hrk⟩ := hform r' hr'
+    have httl : r'.ttl = cfg.kskPolicy.ttl := (revoked_key_form cfg name pk k r' hrec hrk).2.2.2.1
+    rw [withTtl_self _ _ httl] at hx
+    exact ⟨r', hx, hr', hpk⟩
+
+/-! ## §7 Non-vacuity: small concrete instances -/
+
+section Examples
+
+private def kP : Key := ⟨"ksk-next", 1, 172800, 257, 3, 8, "AAAA"⟩
+private def kC : Key := ⟨"ksk-current", 2, 172800, 257, 3, 8, "BBBB"⟩
+private def kCrev : Key := ⟨"ksk-current", 130, 172800, 385, 3, 8, "BBBB"⟩
+private def z1 : Key := ⟨"zsk-1", 3, 3600, 256, 3, 8, "CCCC"⟩
+private def zClash : Key := ⟨"zsk-clash", 4, 3600, 256, 3, 8, "AAAA"⟩
+
+/-- the `revoke` schema slot of the example configuration: publish next + current, revoke current,
+    sign with current and next; one honest ZSK and one request key clashing with a KSK -/
+example : slotFold 172800 [kP, kC] [kCrev] [kC, kP] [z1, zClash]
+    = [kP, kCrev, { z1 with ttl := 172800 }] := by decide
+
+example : slotPick [kP, kC] [kCrev] [kC, kP] [z1, zClash] "BBBB" = some kCrev := by decide
+example : slotPick [kP, kC] [kCrev] [kC, kP] [z1, zClash] "AAAA" = some kP := by decide
+example : PkFunctional [kCrev] ∧ PkFunctional ([kP, kC] ++ [kC, kP]) ∧ PkFunctional [z1] := by
+  refine ⟨?_, ?_, ?_⟩ <;> unfold PkFunctional <;> decide
+
+example : sameSet [8, 8] [8] = true ∧ sameSet [8, 13] [8] = false := by decide
+
+end Examples
 
 end Kskm.C02
